@@ -83,6 +83,9 @@ impl Ctx {
     pub fn distinct(&mut self, key: &str) {
         self.distinct.insert(fnv64(key.as_bytes()));
     }
+    pub fn distinct_raw(&mut self, h: u64) {
+        self.distinct.insert(h);
+    }
     pub fn count(&mut self, name: &str) {
         *self.counters.entry(name.to_string()).or_insert(0) += 1;
     }
